@@ -26,7 +26,7 @@ from typing import Callable, List, Optional
 import z3
 
 W = 80                    # width of symbolic integers
-CONCRETIZE_CAP = 70       # max distinct values when concretising
+CONCRETIZE_CAP = 260      # max distinct values when concretising (covers an 8-bit count field)
 MAX_DECISIONS = 4000      # per path
 PATH_SECONDS = 20         # watchdog per path
 
